@@ -231,6 +231,19 @@ ZeroMean(d) ==
      /\ Emit(Tf(MeanCase("paired", ty, "ci", ki, li, pa, TRUE) @@ [datab |-> pb], "base", <<>>))
      /\ Emit(Tf(MeanCase("paired", ty, "ci", ki, li, pa @@ [shift |-> V(-2, 0)], FALSE) @@ [datab |-> pb], "shift", [by |-> V(-2, 0)]))
 
+\* two samples of EXACTLY equal spread (b = a + 10 on small integers with an integer mean: every sum and quotient is exact, the two standard deviations are
+\* the same float), both shifted by a constant with a full mantissa: after the shift the sums round and the two standard
+\* deviations differ in their last bits - the interval of the difference must not notice
+EqualSpreadShift(d) ==
+  \A ty \in {"f64", "f32"} : \A ki \in 1..3 : \A li \in {8, 12} :
+     LET vs == <<1, 2, 4, 7, 11, 16, 20, 27>>                                              \* 8 values with mean 11: mean and variance are exact
+         da == [rle |-> [j \in 1..8 |-> <<V(vs[j], 0), 1>>], order |-> "asc"]
+         db == [rle |-> [j \in 1..8 |-> <<V(vs[j] + 10, 0), 1>>], order |-> "asc"]
+         c  == IF ty = "f64" THEN V(214748365, -31) ELSE V(13421773, -27)                  \* about 0.1
+     IN
+     /\ Emit(Tf(MeanCase("unpaired", ty, "ci", ki, li, da, TRUE) @@ [datab |-> db], "base", <<>>))
+     /\ Emit(Tf(MeanCase("unpaired", ty, "ci", ki, li, da @@ [shift |-> c], FALSE) @@ [datab |-> db @@ [shift |-> c]], "shift", [by |-> V(0, 0)]))
+
 \* scaling into the last binades before the SUM of squares overflows (200 off-centre values of about 5000): the square of
 \* the sum is out of range there, every square and their sum are not - scaling by a power of two stays exact
 EdgeScale(d) ==
@@ -292,7 +305,7 @@ C16Part(d) ==
 
 Next == /\ ~done
         /\ done' = TRUE
-        /\ CASE Part = "c10" -> C10Part(done) [] Part = "c16" -> (C16Part(done) /\ MixNeg(done) /\ ZeroMean(done) /\ EdgeScale(done) /\ EdgeScaleDown(done)) [] Part = "c10seq" -> C10SeqPart(done)
+        /\ CASE Part = "c10" -> C10Part(done) [] Part = "c16" -> (C16Part(done) /\ MixNeg(done) /\ ZeroMean(done) /\ EdgeScale(done) /\ EdgeScaleDown(done) /\ EqualSpreadShift(done)) [] Part = "c10seq" -> C10SeqPart(done)
              [] Part = "c10extra" -> C10ExtraPart(done) [] Part = "hist" -> HistPart(done)
 Spec == Init /\ [][Next]_done
 =============================================================================
